@@ -30,6 +30,7 @@ theorem length_of_mapM_some {α β : Type} {f : α → Option β} :
         simp [ih bs hrest]
 
 namespace Dongle
+variable {lf : Bool}
 
 /-- the configurations in which a header can be sent: an advance / update command whose chunk
     operation is one of those the conformance predicate knows -/
@@ -50,7 +51,7 @@ def HdrGood : HdrOut → Prop
   | .fail _ => True
 
 theorem headerMetaStep_safe (c : BlockCfg) (isB : Bool) (data : Bytes) (hk : ChunkOk c isB) :
-    Safe (headerMetaStep c isB data) (fun _ => True) (fun _ => False) := by
+    Safe lf (headerMetaStep c isB data) (fun _ => True) (fun _ => False) := by
   unfold headerMetaStep
   refine catchResult_safe ?_ ?_ fun _ => Safe.pure trivial
   · repeat' tracks_step
@@ -77,7 +78,7 @@ theorem chunkAnswers_block {c : BlockCfg} {isB : Bool} (hk : ChunkOk c isB) :
   exact hk.2
 
 theorem headerChunkStep_safe (c : BlockCfg) (isB : Bool) (raw : Bytes) (req : Nat) (hk : ChunkOk c isB) :
-    Safe (headerChunkStep c isB raw req) HdrGood (fun _ => False) := by
+    Safe lf (headerChunkStep c isB raw req) HdrGood (fun _ => False) := by
   unfold headerChunkStep
   refine catchResult_safe ?_ ?_ fun _ => Safe.pure trivial
   · repeat' tracks_step
@@ -91,7 +92,7 @@ theorem headerChunkStep_safe (c : BlockCfg) (isB : Bool) (raw : Bytes) (req : Na
       exact Safe.pure (conf_block hk.1 hd).1
 
 theorem sendBlockHeader_safe (h : Hashes) (c : BlockCfg) (isB : Bool) (b : Option Bytes) (hk : ChunkOk c isB) :
-    Safe (sendBlockHeader h c isB b) HdrGood (fun _ => False) := by
+    Safe lf (sendBlockHeader h c isB b) HdrGood (fun _ => False) := by
   unfold sendBlockHeader
   split
   · exact Safe.pure trivial
@@ -102,7 +103,7 @@ theorem sendBlockHeader_safe (h : Hashes) (c : BlockCfg) (isB : Bool) (b : Optio
     · exact headerChunkStep_safe _ _ _ _ hk
 
 theorem sendBrothers_safe (h : Hashes) (c : BlockCfg) (hk : ChunkOk c true) :
-    ∀ bs last, 3 ≤ last.length → Safe (sendBrothers h c bs last) HdrGood (fun _ => False) := by
+    ∀ bs last, 3 ≤ last.length → Safe lf (sendBrothers h c bs last) HdrGood (fun _ => False) := by
   intro bs
   induction bs with
   | nil => intro last hl; unfold sendBrothers; exact Safe.pure hl
@@ -117,7 +118,7 @@ theorem sendBrothers_safe (h : Hashes) (c : BlockCfg) (hk : ChunkOk c true) :
 theorem brothersPart_safe (h : Hashes) (c : BlockCfg) (bros : List (List (Option Bytes))) (resp0 : Bytes)
     (hcmd : c.cmd.toNat = 0x10 ∨ c.cmd.toNat = 0x30) (hadv : c.advance = true → ChunkOk c true)
     (h0 : 3 ≤ resp0.length) :
-    Safe (brothersPart h c bros resp0) HdrGood (fun _ => False) := by
+    Safe lf (brothersPart h c bros resp0) HdrGood (fun _ => False) := by
   have hx : c.cmd.toNat ≠ 0xFF ∧ c.cmd.toNat ≠ 0xFA := by rcases hcmd with h1 | h1 <;> omega
   unfold brothersPart
   refine Safe.bind (idx_tracks _ _) (idx_safe (by omega)) fun rop0 _ => ?_
@@ -147,7 +148,7 @@ theorem brothersPart_safe (h : Hashes) (c : BlockCfg) (bros : List (List (Option
 
 /-- the only thing the block loop itself can raise is the layer's own "unexpected state" error -/
 theorem blockLoop_safe (h : Hashes) (c : BlockCfg) (hk : ChunkOk c false) (hadv : c.advance = true → ChunkOk c true) :
-    ∀ blocks bros, Safe (blockLoop h c blocks bros) (fun _ => True) (fun e => e = .dongleError) := by
+    ∀ blocks bros, Safe lf (blockLoop h c blocks bros) (fun _ => True) (fun e => e = .dongleError) := by
   intro blocks
   induction blocks with
   | nil => intro bros; unfold blockLoop; exact Safe.throw rfl
@@ -172,7 +173,7 @@ theorem blockLoop_safe (h : Hashes) (c : BlockCfg) (hk : ChunkOk c false) (hadv 
 theorem doBlockOperation_safe (h : Hashes) (c : BlockCfg) (blocks : List (Option Bytes))
     (bros : List (List (Option Bytes))) (hk : ChunkOk c false) (hadv : c.advance = true → ChunkOk c true)
     (hlen : blocks.length < 2 ^ 32) :
-    Safe (doBlockOperation h c blocks bros) (fun _ => True) (fun e => e = .dongleError) := by
+    Safe lf (doBlockOperation h c blocks bros) (fun _ => True) (fun e => e = .dongleError) := by
   unfold doBlockOperation
   split
   · rename_i hge; omega
@@ -190,7 +191,7 @@ theorem doBlockOperation_safe (h : Hashes) (c : BlockCfg) (blocks : List (Option
 
 theorem advanceBlockchain_safe (h : Hashes) (blocks : List (Option Bytes)) (bros : List (List (Option Bytes)))
     (hlen : blocks.length < 2 ^ 32) :
-    Safe (advanceBlockchain h blocks bros) (fun _ => True) (fun e => e = .dongleError) := by
+    Safe lf (advanceBlockchain h blocks bros) (fun _ => True) (fun e => e = .dongleError) := by
   unfold advanceBlockchain
   dsimp only
   split
@@ -198,7 +199,7 @@ theorem advanceBlockchain_safe (h : Hashes) (blocks : List (Option Bytes)) (bros
   · exact doBlockOperation_safe _ _ _ _ (advCfg_chunkOk false) (fun _ => advCfg_chunkOk true) hlen
 
 theorem updateAncestor_safe (h : Hashes) (blocks : List (Option Bytes)) (hlen : blocks.length < 2 ^ 32) :
-    Safe (updateAncestor h blocks) (fun _ => True) (fun e => e = .dongleError) := by
+    Safe lf (updateAncestor h blocks) (fun _ => True) (fun e => e = .dongleError) := by
   unfold updateAncestor
   split
   · exact Safe.pure trivial
